@@ -218,6 +218,52 @@ def build_classes(ctx, units, rnd):
     return [classes[k] for k in sorted(classes, key=lambda k: repr(k))]
 
 
+def near_miss_pairs(units, rnd, count):
+    """Ordered pairs of unit expressions whose dimensions differ in ONE exponent only (the adjacent
+    mismatches: a numerator of a rational power, the sign of a power, one extra factor).  A random
+    pair of dimension classes practically never lands on these, and they are exactly where a slip in
+    the exponent algebra would make two different dimensions look equal."""
+    base = [u for u in units if model.key(u.dim) != model.key({})]
+    out = []
+    fams = [
+        ("au::pow<3>(au::root<2>(au::{x}{{}}))", ("x", "3/2"), "au::root<2>(au::Kilo<au::{x}>{{}})", ("x", "1/2")),
+        ("au::root<3>(au::pow<2>(au::{x}{{}}))", ("x", "2/3"), "au::root<3>(au::Milli<au::{x}>{{}})", ("x", "1/3")),
+        ("au::root<2>(au::pow<-1>(au::{x}{{}}))", ("x", "-1/2"), "au::root<2>(au::{x}{{}})", ("x", "1/2")),
+        ("au::pow<5>(au::root<2>(au::{x}{{}}))", ("x", "5/2"), "au::pow<3>(au::root<2>(au::{x}{{}}))", ("x", "3/2")),
+        ("au::pow<2>(au::{x}{{}})", ("x", 2), "au::Kilo<au::{x}>{{}}", ("x", 1)),
+        ("au::pow<-1>(au::{x}{{}})", ("x", -1), "au::Milli<au::{x}>{{}}", ("x", 1)),
+        ("au::pow<3>(au::{x}{{}})", ("x", 3), "au::pow<2>(au::{x}{{}})", ("x", 2)),
+        ("au::pow<-2>(au::root<3>(au::{x}{{}}))", ("x", "-2/3"), "au::pow<-1>(au::root<3>(au::{x}{{}}))", ("x", "-1/3")),
+        ("au::pow<4>(au::root<3>(au::{x}{{}}))", ("x", "4/3"), "au::root<3>(au::{x}{{}})", ("x", "1/3")),
+        ("au::pow<3>(au::root<4>(au::{x}{{}}))", ("x", "3/4"), "au::root<4>(au::{x}{{}})", ("x", "1/4")),
+    ]
+    for k in range(count):
+        fa, (_, pa), fb, (_, pb) = fams[(k + rnd.randrange(len(fams))) % len(fams)] if k >= len(fams) else fams[k]
+        x = rnd.choice(base)
+        a = (fa.format(x=x.name), model.power(x.dim, pa))
+        b = (fb.format(x=x.name), model.power(x.dim, pb))
+        if model.key(a[1]) == model.key(b[1]):
+            continue
+        out.append((a, b) if k % 2 == 0 else (b, a))
+    # two-unit families
+    for k in range(max(2, count // 3)):
+        x, y = rnd.sample(base, 2)
+        if model.key(x.dim) == model.key(y.dim) or model.key(x.dim) == model.key(model.inv(y.dim)):
+            continue
+        two = [
+            ("(au::{x}{{}} * au::{y}{{}})", model.mul(x.dim, y.dim), "(au::{x}{{}} / au::{y}{{}})", model.div(x.dim, y.dim)),
+            ("(au::root<2>(au::{x}{{}}) * au::{y}{{}})", model.mul(model.power(x.dim, "1/2"), y.dim),
+             "(au::{x}{{}} * au::root<2>(au::{y}{{}}))", model.mul(x.dim, model.power(y.dim, "1/2"))),
+            ("(au::{x}{{}} * au::pow<2>(au::{y}{{}}))", model.mul(x.dim, model.power(y.dim, 2)),
+             "(au::{x}{{}} * au::{y}{{}})", model.mul(x.dim, y.dim)),
+        ][k % 3]
+        fa, da, fb, db = two
+        if model.key(da) == model.key(db):
+            continue
+        out.append(((fa.format(x=x.name, y=y.name), da), (fb.format(x=x.name, y=y.name), db)))
+    return out
+
+
 def twin_b(direction, ra, rb):
     """C++ definition of the same-dimension twin of A as type B, or None if no valid twin."""
     ra, rb = model.canon(ra), model.canon(rb)
@@ -289,13 +335,21 @@ def body(ctx):
         return c.members[k % len(c.members)]
 
     n = 0
+    work = []
     for (i, j) in chosen:
-        # in quick tier alternate rep classes over the pairs to bound cost; thorough: all
         for rk in repsel:
-            ra, rb = REPS[rk]
             ea, ma = member(i)
             eb, mb = member(j)
-            da, db = classes[i].dim, classes[j].dim
+            work.append((rk, ea, classes[i].dim, eb, classes[j].dim))
+    near = near_miss_pairs(units, rnd, 40 if ctx.thorough else 10)
+    ctx.require(len(near) >= (30 if ctx.thorough else 8), "only %d near-miss pairs" % len(near))
+    for k, ((ea, da), (eb, db)) in enumerate(near):
+        # one rep class per near-miss pair in the quick tier (rotating), all of them in the thorough tier
+        for rk in (repsel if ctx.thorough else [repsel[k % len(repsel)]]):
+            work.append((rk, ea, da, eb, db))
+    if True:
+        for (rk, ea, da, eb, db) in work:
+            ra, rb = REPS[rk]
             head = "using RA = %s; using RB = %s;\nstruct A : decltype(%s) {};\n" % (ra, rb, ea)
             bad_b = "struct B : decltype(%s) {};\n" % eb
             for kind, ops, setup in (("q", Q_OPS, QSETUP), ("p", P_OPS, PSETUP)):
@@ -371,6 +425,7 @@ def body(ctx):
         instances_per_operation=op_instances,
         dimension_classes=len(classes),
         class_pairs=len(chosen),
+        near_miss_pairs=len(near),
         rep_classes=repsel,
         configs=[c.name for c in configs],
         mechanism_that_rejected=mech,
